@@ -23,7 +23,7 @@ OWNER = {"insert": "C04", "remove": "C05", "elevate": "C06", "reduce": "C06",
 # --------------------------------------------------------------------------
 # plan generation
 # --------------------------------------------------------------------------
-def gen_curve_spec(rng, mode, rational, maxp, maxint, profile, dyadic=False):
+def gen_curve_spec(rng, mode, rational, maxp, maxint, profile, dyadic=False, maxnpts=10):
     p = rng.randint(0, maxp)
     nint = rng.randint(0, maxint)
     if mode == "float" or dyadic:
@@ -38,7 +38,7 @@ def gen_curve_spec(rng, mode, rational, maxp, maxint, profile, dyadic=False):
     if vals[0] == 0 and len(vals) == 2 and rng.random() < 0.5:
         vals = [Fraction(-1)] + vals  # make 0 an interior knot now and then
     mults = [p + 1] + [rng.randint(1, p + 1) for _ in vals[1:-1]] + [p + 1]
-    while sum(mults) - p - 1 > 10 and len(vals) > 2:
+    while sum(mults) - p - 1 > maxnpts and len(vals) > 2:
         vals.pop(1)
         mults.pop(1)
     npts = sum(mults) - p - 1
@@ -98,8 +98,17 @@ def gen_plan(prop, seed, tier):
     # the library keeps between calls (memo tables, caches keyed by value) has a float history when the exact
     # curve arrives - the cross-representation history of C04-C06's "exactly for rational data" clauses
     cfg["shadow"] = mode == "exact" and profile in ("frac", "vec") and rng.random() < 0.35
-    cfg["init"] = gen_curve_spec(rng, mode, rational, maxp, rng.randint(0, 3), "frac" if profile == "frac" else "vec",
-                                 dyadic=cfg["shadow"])
+    # swarm knob (thorough tier only): a few runs use large curves (degree 4, up to 20 control points), where exact
+    # elimination meets integers beyond 64 bits and long multiplicity patterns
+    large = tier == "thorough" and not rational and mode == "exact" and profile in ("frac", "vec") and rng.random() < 0.06
+    cfg["large"] = large
+    if large:
+        cfg["init"] = gen_curve_spec(rng, mode, rational, 4, rng.randint(3, 6), "frac" if profile == "frac" else "vec",
+                                     dyadic=cfg["shadow"], maxnpts=20)
+        cfg["init"]["p"] = cfg["init"]["p"]
+    else:
+        cfg["init"] = gen_curve_spec(rng, mode, rational, maxp, rng.randint(0, 3), "frac" if profile == "frac" else "vec",
+                                     dyadic=cfg["shadow"])
     nops = rng.randint(3, 14 if tier == "thorough" else 9)
     weights = {
         "C04": [("insert", 10), ("elevate", 2), ("remove", 2), ("reduce", 1), ("clean", 1)],
@@ -532,6 +541,8 @@ class RefEngine:
                 ctx.fail("valid-insert-refused", self.klass(s0) + "-" + cfg["profile"],
                          "knot_insert(%s) raised %s: %s" % ([M.enc(M.Fr(v)) for v in vals], type(exc).__name__, exc))
             return "raise:env-fault" if fired else "raise:" + type(exc).__name__
+        if must == "any":
+            return "accepted-unspecified"      # non-numeric nodes are not covered by the statement
         if must is not None:
             if judged:
                 ctx.oracle("rejects-invalid")
@@ -628,6 +639,13 @@ class RefEngine:
         exc, fired, pre = self.call(ctx, curve, fn, "knot_remove", judged)
         if cls in ("bad", "badtol", "absent", "illformed"):
             ctx.fault("invalid-request:remove-" + cls)
+        if cls == "badtol":
+            # a negative tolerance is not covered by the statement: nothing but refusal atomicity (in call()) is judged
+            if exc is None:
+                self.lossy[t] = True
+                self.last[t] = None
+                return "ok"
+            return "raise:" + type(exc).__name__
         klass = self.klass(s0)
         if exc is not None:
             if judged and not fired:
@@ -644,7 +662,11 @@ class RefEngine:
                     ctx.oracle("none-always-succeeds")
                     ctx.fail("none-refused", klass, "knot_remove(..., tolerance=None) raised %s: %s" % (type(exc).__name__, exc))
             return "raise:env-fault" if fired else "raise:" + type(exc).__name__
-        if cls in ("bad", "badtol", "absent", "illformed"):
+        if cls == "bad":
+            self.lossy[t] = True
+            self.last[t] = None
+            return "accepted-unspecified"
+        if cls in ("absent", "illformed"):
             if judged:
                 ctx.oracle("rejects-invalid")
                 ctx.fail("invalid-accepted", "remove-" + cls, "knot_remove(%r, %r) was accepted although it must be refused" % (
@@ -751,7 +773,7 @@ class RefEngine:
         p = M.kv_degree(L)
         times = self.times_value(op["times"])
         valid = isinstance(times, int) and times >= 1
-        if valid and len(L) + times * len(M.kv_knots(L)) - (p + times) - 1 > 16:
+        if valid and len(L) + times * len(M.kv_knots(L)) - (p + times) - 1 > (26 if self.cfg.get("large") else 16):
             ctx.count("elevation_skipped_by_size_rule")
             return "skip"
         if op["via"] == "setter" and valid:
@@ -763,13 +785,12 @@ class RefEngine:
         exc, fired, pre = self.call(ctx, curve, fn, "degree_increase", judged)
         klass = self.klass(s0)
         if not valid:
+            # t = 0, negative or non-integer is outside the statement's "all t >= 1": only refusal atomicity is judged
             ctx.fault("invalid-request:elevate")
             if exc is None:
-                if judged:
-                    ctx.fail("invalid-accepted", "elevate", "degree_increase(%r) was accepted" % (times,))
-                return "accepted-invalid"
-            if judged and not isinstance(exc, ValueError):
-                ctx.fail("wrong-exception", "elevate", "degree_increase(%r) raised %s instead of ValueError" % (times, type(exc).__name__))
+                self.last[t] = None
+                self.lossy[t] = True
+                return "accepted-unspecified"
             return "raise:env-fault" if fired else "raise:" + type(exc).__name__
         if exc is not None:
             if judged and not fired:
@@ -838,9 +859,12 @@ class RefEngine:
             cls = "badtol"
         else:
             expressible = times <= p and all(m >= times for _, m in M.kv_mults(L)[1:-1])
-            if not expressible:
-                cls = "inexpressible"
+            if times > p:
+                cls = "inexpressible"            # there is no degree below 0: must be refused
                 ctx.probe("reduce-inexpressible")
+            elif not expressible:
+                cls = "unspecified"              # an interior knot has fewer than t copies: the target vector is not defined
+                ctx.probe("reduce-below-knot-multiplicity")
             elif undo is not None:
                 cls = "reducible"
             elif not rat and self.numeric and self.exact:
@@ -849,11 +873,18 @@ class RefEngine:
                 cls = "unknown"
         exc, fired, pre = self.call(ctx, curve, fn, "degree_decrease", judged)
         klass = self.klass(s0)
-        if cls in ("bad", "badtol", "inexpressible"):
+        if cls in ("bad", "badtol", "inexpressible", "unspecified"):
             ctx.fault("invalid-request:reduce-" + cls)
+        if cls in ("badtol", "bad", "unspecified"):
+            # negative tolerance: outside the statement, only refusal atomicity is judged
+            if exc is None:
+                self.lossy[t] = True
+                self.last[t] = None
+                return "ok"
+            return "raise:" + type(exc).__name__
         if exc is not None:
             if judged and not fired and self.numeric:
-                if cls in ("bad", "inexpressible", "lossy", "reducible", "unknown") and not isinstance(exc, ValueError):
+                if cls in ("inexpressible", "lossy", "reducible", "unknown") and not isinstance(exc, ValueError):
                     ctx.fail("wrong-exception", "reduce-" + klass, "degree_decrease(%r, %s) raised %s instead of ValueError: %s"
                              % (times, tolname, type(exc).__name__, exc))
                 if cls == "reducible" and (self.exact or tolname in ("default", "1e-3", "none")):
@@ -865,7 +896,7 @@ class RefEngine:
                     ctx.oracle("none-always-succeeds")
                     ctx.fail("none-refused", klass, "degree_decrease(%d, None) raised %s: %s" % (times, type(exc).__name__, exc))
             return "raise:env-fault" if fired else "raise:" + type(exc).__name__
-        if cls in ("bad", "badtol", "inexpressible"):
+        if cls == "inexpressible":
             if judged:
                 ctx.fail("invalid-accepted", "reduce-" + cls, "degree_decrease(%r, %r) was accepted although it must be refused" % (times, tolname))
             return "accepted-invalid"
@@ -945,11 +976,14 @@ class RefEngine:
             exc = e
         klass = self.klass(s0)
         if badtol:
+            # invalid tolerances are history ("refused requests between which cleaning must still work"); the
+            # statement does not say they must be refused, so only the atomicity of a refusal is judged
             ctx.fault("invalid-request:clean-tolerance")
             if exc is None:
-                if judged:
-                    ctx.fail("invalid-accepted", "clean-tolerance", "%s(tolerance=%r) was accepted" % (which, tol))
-                return "accepted-invalid"
+                if self.alpha(curve) != s0:
+                    self.lossy[t] = True
+                    self.last[t] = None
+                return "ok-unspecified"
             if judged:
                 ctx.oracle("refusal-atomic")
                 if self.freeze(curve) != pre:
